@@ -236,3 +236,26 @@ fn c18_corrupt_cleanup_sequential() {
     kani::cover!(!cleaned && pre_meta.is_some(), "left alone because an endpoint file exists");
     core::mem::forget(r);
 }
+
+// vacuity twin (thorough tier)
+#[kani::proof]
+#[kani::unwind(12)]
+#[kani::stub(std::fmt::format, stub_fmt_format)]
+#[kani::stub(alloc::string::ToString::to_string, stub_to_string_e)]
+#[kani::stub(now_ms, a_now_ms)]
+#[kani::stub(std::path::Path::exists, a_exists)]
+#[kani::stub(read_authority_lock_record, a_read_lock)]
+#[kani::stub(read_authority_meta, a_read_meta)]
+#[kani::stub(std::fs::rename, a_rename)]
+#[kani::stub(std::fs::remove_file, a_remove_file)]
+fn c18tx_stale_cleanup_twin() {
+    let dead: u32 = kani::any();
+    kani::assume(dead != B_PID);
+    am().dead_pid = dead;
+    am().lock = LockSlot::Record(dead);
+    am().meta_pid = None;
+    let r = try_cleanup_stale_authority_files(Path::new("/d"), dead, 0);
+    kani::cover!(matches!(r, Ok(true)), "cleaned");
+    core::mem::forget(r);
+    assert!(false, "vacuity-witness");
+}
